@@ -380,7 +380,7 @@ def envelope_corruptions(b):
                 out.append(('envelope-authentication-' + name, insert(at, off, _ttlv(0x42000C, 1, body))))
             out.append(('envelope-timestamp-len4', insert(at, off, _ttlv(0x420092, 9, b'\x00\x00\x00\x01'))))
             out.append(('envelope-maxsize-len8', insert(at, off, _ttlv(0x420050, 2, b'\x00' * 8))))
-            out.append(('envelope-async-overrun', insert(at, off, b'\x42\x00\x07\x06\x00\x00\x01\x00' + b'\x00' * 8)))
+            out.append(('envelope-async-value2', insert(at, off, _ttlv(0x420007, 6, b'\x00' * 7 + b'\x02'))))     # (the Boolean LENGTH field is ignored by PyKMIP: not used)
             out.append(('envelope-batchoption-garbage', insert(at, off, _ttlv(0x42000E, 5, b'\xff\xff\xff\xff\xff\xff'))))
     return out
 
